@@ -152,6 +152,11 @@ func newCuEnv(dir string, set []string) (*cuEnv, error) {
 		if err := mk(decoy, []string{"r"}, nil, nil); err != nil { // has r but not q: filtered out by AllOf
 			return err
 		}
+		// a second, never empty back-reference set (decoy's reports): a runtime set symbol is re-used from row to row
+		d2 := decoy
+		if err := mk("zz-helper", nil, &d2, nil); err != nil {
+			return err
+		}
 		// one person holding the set as roles, link set and ref-counted link set
 		if err := mk(person, set, nil, set); err != nil {
 			return err
@@ -256,6 +261,13 @@ var cursorKinds = []cursorKind{
 	{name: "setSymbol.OpenCursor", needsNoE: true, fwdOnly: true, seekByStr: true, open: func(e *cuEnv, tx *bbolt.Tx, fwd bool) ast.SetCursor {
 		sym := e.S.People.GetSymbol(schema.FRoles).(boltz.RuntimeEntitySetSymbol)
 		return sym.OpenCursor(tx, []byte(person))
+	}},
+	{name: "setSymbol.reopened", needsNoE: true, fwdOnly: true, seekByStr: true, open: func(e *cuEnv, tx *bbolt.Tx, fwd bool) ast.SetCursor {
+		// the query engine keeps one runtime symbol per name and re-opens it for every row: first a row with a non-empty set, left
+		// un-exhausted, then the row under test (which has no bucket at all when its set is empty)
+		sym := e.S.People.GetSymbol(schema.FRep).(boltz.RuntimeEntitySetSymbol)
+		_ = sym.OpenCursor(tx, []byte(decoy))
+		return sym.OpenCursor(tx, []byte(boss))
 	}},
 	{name: "store.IterateIds", needsNoE: true, fwdOnly: true, open: func(e *cuEnv, tx *bbolt.Tx, fwd bool) ast.SetCursor {
 		return e.S.Teams.IterateIds(tx, ast.BoolNodeTrue)
